@@ -90,6 +90,25 @@ theorem C15_refresh (cfg : Cfg) (ks : KeySet) (before : List Ev) (ih : String) (
     | refreshFailed => simp only [List.cons_append, run, keysAt]; exact ih' ks
     | announce i n t => simp only [List.cons_append, run, keysAt]; rw [ih' ks]
 
+/-- **D34**: entries of a fetched set that do not decode to a key do not matter — the set publishes exactly its
+usable keys, wherever the unusable entries stand: what a token is verified against is the same with and
+without them (before D34 one such entry made the whole refresh fail, so a withdrawn key kept admitting
+announces and the newly published ones were refused). -/
+theorem C15_unusable_entries_do_not_matter (a b : List (String × Option Nat)) (kid : String) :
+    publish (a ++ (kid, none) :: b) = publish (a ++ b) := by
+  simp [publish, List.filterMap_append]
+
+/-- … and a usable entry is published under its kid -/
+theorem C15_usable_entry_published (es : List (String × Option Nat)) (kid : String) (k : Nat)
+    (h : (kid, some k) ∈ es) : (kid, k) ∈ publish es := by
+  simp only [publish, List.mem_filterMap]
+  exact ⟨(kid, some k), h, rfl⟩
+
+/-- non-vacuity: a rotation to `k9` published next to an Ed25519 entry takes effect -/
+example : let t : Token := { parses := true, iss := some "iss", aud := some ["aud"], infohashClaim := some "00ff", kid := some "k9",
+                               algRS256 := true, sigOK := fun k => k == 9, exp := none, nbf := none }
+    handleAnnounce ⟨"iss", "aud"⟩ (publish [("kx", none), ("k9", some 9)]) "00ff" 50 (some t) = .accept := by decide
+
 /-- non-vacuity: a token that is accepted, and the same token after key rotation -/
 example : let t : Token := { parses := true, iss := some "iss", aud := some ["a", "aud"], infohashClaim := some "00ff", kid := some "k1",
                                algRS256 := true, sigOK := fun k => k == 7, exp := some 100, nbf := some 10 }
